@@ -232,6 +232,13 @@ func cmdBatch(args []string) int {
 		}
 		rep.ShapeSteps[shape] += rr.Stat.Steps + rr.Stat.SoloSteps
 		rep.ShapeWallMs[shape] += time.Since(t0).Milliseconds()
+		if d := time.Since(t0); d > 5*time.Second {
+			nops := 0
+			for _, t := range spec.Tasks {
+				nops += len(t)
+			}
+			fmt.Fprintf(os.Stderr, "simworker %d: slow run %d: %.1fs strategy=%s tasks=%d ops=%d solo_steps=%d steps=%d solo_abnormal=%d\n", *worker, run, d.Seconds(), spec.Strategy, len(spec.Tasks), nops, rr.Stat.SoloSteps, rr.Stat.Steps, rr.Stat.SoloAbnormal)
+		}
 		if rr.Stat.Nontrivial {
 			hashes[rr.Stat.CaseHash] = struct{}{}
 		}
